@@ -893,6 +893,9 @@ def getattr_(E, obj, name):
             _raise('AttributeError', name)
         if name == '__class__':
             return B.VTypeOf(obj)
+        if name == '__name__':
+            f = z3.Function('class_name', Val, z3.StringSort())
+            return VS(f(obj.t))
         key = ('attr', obj.name, name)
         if key in E.ghost:
             return E.ghost[key]
